@@ -474,6 +474,24 @@ def md_update(chk):
     chk.floor('update cases evaluated', n, 15)
 
 
+def drbg_rules(chk):
+    """SP 800-90A 10.1.2.5: HMAC_DRBG Generate ends with the state update (K, V) := HMAC_DRBG_Update(additional_input, K, V) whatever the
+    number of bits requested, including none; the implementation does it with a final HMAC key change.  Decided by FOLD with
+    len == 0: the key update (br_hmac_key_init on the stored K) must still lie on every path."""
+    from ..oblig import Ob, Var, CALLDOM
+    from .. import oblig as _ob
+    R = 'drbg-state-update'
+    src = 'src/rand/hmac_drbg.c'
+    _ob.run_obligations(chk, [
+        Ob(src, 'br_hmac_drbg_generate', Var('len', 'param'), ('assume', 'eq', 0), CALLDOM('br_hmac_key_init', desc='br_hmac_key_init (K update) on every path'), None,
+           'a request for zero bytes must still advance the generator state, or the sequence of later outputs differs from the specification', rule=R,
+           noinline=('br_hmac_key_init', 'br_hmac_init', 'br_hmac_update', 'br_hmac_out')),
+        Ob(src, 'br_hmac_drbg_generate', Var('len', 'param'), ('assume', 'eq', 40), CALLDOM('br_hmac_key_init', desc='br_hmac_key_init (K update) on every path'), None,
+           'the generator state is advanced after producing output', rule=R,
+           noinline=('br_hmac_key_init', 'br_hmac_init', 'br_hmac_update', 'br_hmac_out')),
+    ])
+
+
 def run(tier):
     chk = report.Check('C13', tier,
                        'Constant tables and class descriptors of the hash functions compared with values generated from the standards '
@@ -617,5 +635,8 @@ def run(tier):
     hmac_key_rules(chk)
     md_padding(chk)
     md_update(chk)
+    drbg_rules(chk)
     chk.floor('tables', sum(1 for o in chk.obls if o['rule'] == 'hash-constants'), 15)
+    from .. import lints
+    lints.length_is_boolean(chk, ['src/hash/', 'src/mac/', 'src/kdf/', 'src/rand/'])
     return chk.finish()
